@@ -12,9 +12,10 @@ SPEC = {
     'deductive': [
         ('K-next(2-safety in debug)', 'next', '^(debug:|stop:)'),
         ('K-first(2-safety in debug)', 'first', '^(debug:|stop:)'),
-        ('K-update(stop flags)', 'update', '^debug:')],
+        ('K-update(stop flags)', 'update', '^debug:'),
+        ("_match_states(stopped entries are never expanded)", 'match_states', r'^select:')],
     'bounded': [
-        ('error-vs-debug-level', suites.case_C19, 400, 8000, RULE + '; ' + 'non-trivial = at least one candidate was cut off', '')],
+        ('error-vs-debug-level', suites.case_C19, 1500, 25000, RULE + '; ' + 'non-trivial = at least one candidate was cut off', '')],
 }
 
 
